@@ -280,8 +280,13 @@ type pathStep struct {
 
 // find returns (path, true) if an undischarged path to a terminal exists.
 func (q *pathQuery) find(from ssa.Instruction) ([]string, bool) {
-	b := from.Block()
-	start := instrIndex(from) + 1
+	return q.findAt(from.Block(), instrIndex(from)+1)
+}
+
+// findFromBlock starts the walk at the first instruction of block b.
+func (q *pathQuery) findFromBlock(b *ssa.BasicBlock) ([]string, bool) { return q.findAt(b, 0) }
+
+func (q *pathQuery) findAt(b *ssa.BasicBlock, start int) ([]string, bool) {
 	visited := map[*ssa.BasicBlock]bool{}
 	var trail []string
 	var walk func(b *ssa.BasicBlock, idx int) bool
@@ -541,4 +546,43 @@ func blockFacts(b *ssa.BasicBlock) []relFact {
 		}
 	}
 	return out
+}
+
+// retErrNil: does this Return return a nil error in its last result? (handles the defer-spilled named/unnamed
+// result: "*t0 = v; rundefers; t = *t0; return t"). Second result is false when the function has no error result.
+func retErrNil(r *ssa.Return) (isNil bool, hasErr bool) {
+	if len(r.Results) == 0 {
+		return false, false
+	}
+	last := r.Results[len(r.Results)-1]
+	if !types.Identical(last.Type(), types.Universe.Lookup("error").Type()) {
+		return false, false
+	}
+	if c, ok := last.(*ssa.Const); ok {
+		return c.IsNil(), true
+	}
+	if u, ok := last.(*ssa.UnOp); ok && u.Op == token.MUL {
+		if al, ok := u.X.(*ssa.Alloc); ok {
+			b := r.Block()
+			for i := len(b.Instrs) - 1; i >= 0; i-- {
+				if st, ok := b.Instrs[i].(*ssa.Store); ok && st.Addr == al {
+					if c, ok := st.Val.(*ssa.Const); ok {
+						return c.IsNil(), true
+					}
+					return false, true
+				}
+			}
+		}
+	}
+	return false, true
+}
+
+// isErrorReturn: Return that yields a non-nil error.
+func isErrorReturn(in ssa.Instruction) bool {
+	r, ok := in.(*ssa.Return)
+	if !ok {
+		return false
+	}
+	n, has := retErrNil(r)
+	return has && !n
 }
